@@ -98,6 +98,7 @@ theorem neutral_run {now : Nat} {classic : Bool} {A : Op → Prop} {l l' : FLink
   | nak seq ha => exact absurd rfl (hA _ ha).2.2.2.2.2.2
   | select x _ _ ih => exact ih
   | stamp w ld ccb cct _ _ ih => exact ih
+  | syncTimeout T _ _ ih => exact ih
 
 /-- One neutral operation. -/
 theorem neutral_one {now : Nat} {classic : Bool} {a b : FLink F} (op : Op) (hop : Neutral op)
